@@ -31,10 +31,12 @@ Theorem C19_div_refuted :
   eval_cpp [PInt32; PInt32] [-7; 2] (EBin ODiv (EField 0) (EField 1)) = -3
   /\ eval_py [-7; 2] (EBin ODiv (EField 0) (EField 1)) = -4.
 Proof. exact division_refuted. Qed.
+Print Assumptions C19_div_refuted.
 
 Theorem C19_unsigned_negation_refuted :
   eval_cpp [PUint32] [1] (ENeg (EField 0)) = 4294967295 /\ eval_py [1] (ENeg (EField 0)) = -1.
 Proof. exact unsigned_negation_refuted. Qed.
+Print Assumptions C19_unsigned_negation_refuted.
 
 (* floating-point computed fields (double operands, + - * / and unary minus): the value is, at every operator, the
    correctly rounded result (nearest, ties to even) of the mathematical operation on the operand values, provided no
@@ -50,11 +52,24 @@ Theorem C19_float_division_is_not_floor :
   fbits (feval [4619567317775286272; 4611686018427387904] (FBin FDiv (FField 0) (FField 1))) = 4615063718147915776
   /\ 4615063718147915776 <> 4613937818241073152.
 Proof. exact float_division_is_not_floor. Qed.
+Print Assumptions C19_float_division_is_not_floor.
 
 Example C19_float_hyp_sat : fok [4619567317775286272; 4611686018427387904] (FBin FDiv (FField 0) (FField 1)).
 Proof. exact fok_sat. Qed.
+Print Assumptions C19_float_hyp_sat.
+
+(* float32 operands: the generated C++ computes in float (feval32), the generated Python holds float32 fields as Python floats and
+   computes in double (feval on the widened operands) - both tied by bit patterns on every run; the two values are different
+   real numbers already for 0.1f + 0.2f (known finding float32-arithmetic-in-double) *)
+Theorem C19_float32_languages_differ_refuted :
+  let fs := [1036831949; 1045220557] in
+  let e := FBin FAdd (FField 0) (FField 1) in
+  widen (fbits32 (feval32 fs e)) <> fbits (feval (map widen fs) e).
+Proof. exact float32_languages_differ. Qed.
+Print Assumptions C19_float32_languages_differ_refuted.
 
 Example C19_hyp_sat :
   in_range_all [PUint8; PInt16; PInt64] [200; -5; 1000000]
     (EBin OSub (EField 2) (EBin OSub (EBin OMul (EField 0) (EField 1)) (ELit 3))) = true.
 Proof. exact eval_agree_hyp_sat. Qed.
+Print Assumptions C19_hyp_sat.
